@@ -502,6 +502,71 @@ Proof. intros H. simpl. unfold pcur. destruct (p_tls p); [reflexivity|congruence
 
 End Link.
 
+(* ---- the first half of a context entry as a mover *)
+Section Comm.
+Variables (R : rules) (c : cfg).
+
+Lemma block_of_thr b a : fst (block_of R c b a) = athr a.
+Proof. destruct a; reflexivity. Qed.
+
+(* the first half of a context entry of a thread that holds a selection of its own commutes with
+   every block of every other thread: such an entry can be regarded as ONE atomic operation *)
+Lemma save_commutes b t a : athr a <> t -> p_tls (b_priv b t) <> None ->
+  beqv (astep R c (astep R c b (ASaveOp t)) a) (astep R c (astep R c b a) (ASaveOp t)).
+Proof.
+  intros Hn Ht. unfold astep. cbn [block_of].
+  set (b1 := bblock c b (t, [ASave])).
+  destruct (bblock_spec c t [ASave] b) as (A1 & B1 & C1). fold b1 in A1, B1, C1.
+  assert (Eb : block_of R c b1 a = block_of R c b a).
+  { destruct a; simpl in *; try reflexivity. rewrite C1 by exact Hn. reflexivity. }
+  rewrite Eb.
+  destruct (block_of R c b a) as [u l] eqn:Ea.
+  assert (Hu : u = athr a) by (rewrite <- (block_of_thr b a), Ea; reflexivity). subst u.
+  set (b2 := bblock c b (athr a, l)).
+  destruct (bblock_spec c t [ASave] b2) as (A2 & B2 & C2).
+  destruct (bblock_spec c (athr a) l b1) as (A3 & B3 & C3).
+  destruct (bblock_spec c (athr a) l b) as (A4 & B4 & C4). fold b2 in A4, B4, C4.
+  split.
+  - rewrite A3, A2, A4, A1. rewrite (C1 (athr a) Hn). reflexivity.
+  - intros v. destruct (Nat.eq_dec v t) as [->|Hv].
+    + rewrite (C3 t) by congruence. rewrite B2, B1. rewrite (C4 t) by congruence.
+      unfold trun, t1. simpl. unfold pcur. destruct (p_tls (b_priv b t)); [reflexivity|congruence].
+    + rewrite (C2 v Hv). destruct (Nat.eq_dec v (athr a)) as [->|Hw].
+      * rewrite B3, B4, A1, (C1 (athr a) Hn). reflexivity.
+      * rewrite (C3 v Hw), (C4 v Hw), (C1 v Hv). reflexivity.
+Qed.
+
+Lemma beqv_trans b1 b2 b3 : beqv b1 b2 -> beqv b2 b3 -> beqv b1 b3.
+Proof. intros [A B] [A' B']. split; [congruence|]. intros t. now rewrite B. Qed.
+
+Lemma other_block_keeps_priv b a t : athr a <> t -> b_priv (astep R c b a) t = b_priv b t.
+Proof.
+  intros Hn. unfold astep. destruct (block_of R c b a) as [u l] eqn:Ea.
+  assert (Hu : u = athr a) by (rewrite <- (block_of_thr b a), Ea; reflexivity). subst u.
+  destruct (bblock_spec c (athr a) l b) as (_ & _ & C). apply C. congruence.
+Qed.
+
+(* ... hence it can be postponed past any number of blocks of other threads, up to the second half of
+   the entry: for a thread that holds a selection of its own, backend_context entry is atomic *)
+Theorem save_sinks t : forall others b rest,
+  Forall (fun a => athr a <> t) others -> p_tls (b_priv b t) <> None ->
+  beqv (arun R c b (ASaveOp t :: others ++ rest)) (arun R c b (others ++ ASaveOp t :: rest)).
+Proof.
+  induction others as [|a others IH]; intros b rest HF Ht; [split; reflexivity|].
+  inversion HF as [|? ? Ha HF']; subst.
+  change (arun R c b (ASaveOp t :: (a :: others) ++ rest))
+    with (arun R c (astep R c (astep R c b (ASaveOp t)) a) (others ++ rest)).
+  change (arun R c b ((a :: others) ++ ASaveOp t :: rest))
+    with (arun R c (astep R c b a) (others ++ ASaveOp t :: rest)).
+  eapply beqv_trans; [apply arun_eqv; apply save_commutes; assumption|].
+  change (arun R c (astep R c (astep R c b a) (ASaveOp t)) (others ++ rest))
+    with (arun R c (astep R c b a) (ASaveOp t :: others ++ rest)).
+  apply IH; [exact HF'|]. rewrite other_block_keeps_priv by exact Ha. exact Ht.
+Qed.
+
+End Comm.
+
+
 (* ---- witnesses *)
 Definition p0 : priv := {| p_tls := None; p_ctx := []; p_reg := Named 0; p_out := [] |}.
 Definition b00 : bst := {| b_shared := Named 0; b_priv := fun _ => p0 |}.
